@@ -406,3 +406,150 @@ Proof.
   unfold wf_msg. rewrite G0, G2, G4, G6, G8, G10. cbn [N.eqb Pos.eqb negb].
   rewrite Gn, Gt, Gc, H1, H2, H3, Nat.eqb_refl. reflexivity.
 Qed.
+
+(* ---------------------------------------------------------------------------------- *)
+(* pointer-free RDATA: how it parses does not depend on where it sits                    *)
+
+(* number of fixed bytes in front of the name of name-valued RDATA *)
+Definition name_prefix_len (ty : N) : option nat :=
+  if (ty =? 5) || (ty =? 2) then Some 0%nat
+  else if ty =? 15 then Some 2%nat
+  else if ty =? 33 then Some 6%nat
+  else None.
+
+Definition opaque_type (ty : N) : Prop :=
+  ty <> 5 /\ ty <> 2 /\ ty <> 15 /\ ty <> 33 /\ ty <> 16 /\ ty <> 1 /\ ty <> 41.
+
+Inductive rd_shape : N -> list N -> option (list (list N)) -> Prop :=
+| rs_opaque ty rd : opaque_type ty -> rd_shape ty rd None
+| rs_txt rd : txt_tiled (S (length rd)) rd = true -> (1 <= length rd)%nat -> rd_shape 16 rd None
+| rs_name ty pfx rl : name_prefix_len ty = Some (length pfx) -> lens_ok rl -> (wire_len rl <= 255)%nat ->
+                      rd_shape ty (pfx ++ enc_name rl) (Some rl).
+
+Definition mk_rr (owner : list (list N)) (ty cl ttl : N) (rd : list N) (rdn : option (list (list N))) : rr :=
+  {| rr_name := owner; rr_type := ty; rr_class := cl; rr_ttl := ttl; rr_rdata := rd; rr_rdname := rdn |}.
+
+Lemma rr_tail_shape ty rd rdn pre post starts1 owner cl ttl :
+  rd_shape ty rd rdn ->
+  exists st, rr_tail (pre ++ rd ++ post) starts1 (length pre) (length rd) owner ty cl ttl rd =
+             Some (mk_rr owner ty cl ttl rd rdn, (length pre + length rd)%nat, st ++ starts1).
+Proof.
+  intros Hs. destruct Hs as [ty rd [H5 [H2 [H15 [H33 [H16 [H1 H41]]]]]]|rd Ht Hl|ty pfx rl Hp Hok Hw].
+  - exists []. unfold rr_tail.
+    destruct (ty =? 5) eqn:E5; [lia|]. destruct (ty =? 2) eqn:E2; [lia|]. destruct (ty =? 15) eqn:E15; [lia|].
+    destruct (ty =? 33) eqn:E33; [lia|]. destruct (ty =? 16) eqn:E16; [lia|]. destruct (ty =? 1) eqn:E1; [lia|].
+    destruct (ty =? 41) eqn:E41; [lia|]. reflexivity.
+  - exists []. unfold rr_tail. cbn [N.eqb Pos.eqb orb]. rewrite Ht.
+    destruct (1 <=? length rd)%nat eqn:E; [reflexivity|apply Nat.leb_gt in E; lia].
+  - exists (offsets (length pre + length pfx) rl).
+    assert (Hn : pname (pre ++ (pfx ++ enc_name rl) ++ post) starts1 (length pre + length pfx) =
+                 Some (rl, (length pre + length pfx + wire_len rl)%nat, offsets (length pre + length pfx) rl)).
+    { replace (pre ++ (pfx ++ enc_name rl) ++ post) with ((pre ++ pfx) ++ enc_name rl ++ post)
+        by (rewrite <- !app_assoc; reflexivity).
+      replace (length pre + length pfx)%nat with (length (pre ++ pfx)) by (rewrite app_length; reflexivity).
+      apply pname_plain; assumption. }
+    assert (He : (length pre + length pfx + wire_len rl =? length pre + length (pfx ++ enc_name rl))%nat = true).
+    { apply Nat.eqb_eq. rewrite app_length, enc_name_length. lia. }
+    pose proof (wire_len_ge_length rl) as Hg.
+    unfold rr_tail, name_prefix_len in *.
+    destruct ((ty =? 5) || (ty =? 2)) eqn:E52.
+    + inversion Hp as [Hp']. rewrite <- Hp' in *. rewrite Nat.add_0_r in *. rewrite Hn, He. reflexivity.
+    + destruct (ty =? 15) eqn:E15.
+      * inversion Hp as [Hp']. rewrite <- Hp' in *. rewrite Hn, He.
+        destruct (length (pfx ++ enc_name rl) <? 2)%nat eqn:E; [apply Nat.ltb_lt in E; rewrite app_length in E; lia|reflexivity].
+      * destruct (ty =? 33) eqn:E33; [|discriminate].
+        inversion Hp as [Hp']. rewrite <- Hp' in *. rewrite Hn, He.
+        destruct (length (pfx ++ enc_name rl) <? 6)%nat eqn:E; [apply Nat.ltb_lt in E; rewrite app_length in E; lia|reflexivity].
+Qed.
+
+(* ---------------------------------------------------------------------------------- *)
+(* records whose owner is the pointer 0xC00C to the question name                        *)
+
+Definition ptr12 : list N := [192; 12].
+
+Definition rec12 (ty cl ttl : N) (rd : list N) : list N :=
+  ptr12 ++ rr_fixed ty cl ttl (N.of_nat (length rd)) ++ rd.
+
+Lemma rec12_length ty cl ttl rd : length (rec12 ty cl ttl rd) = (12 + length rd)%nat.
+Proof. unfold rec12. rewrite !app_length, rr_fixed_length. reflexivity. Qed.
+
+Lemma parse_rr_ptr12 H ls mid ty cl ttl rd rdn post starts :
+  let pre := H ++ enc_name ls ++ mid in
+  let m := pre ++ rec12 ty cl ttl rd ++ post in
+  length H = 12%nat -> lens_ok ls -> (wire_len ls <= 255)%nat -> In 12%nat starts ->
+  ty < 65536 -> cl < 65536 -> ttl < 4294967296 -> N.of_nat (length rd) < 65536 ->
+  rd_shape ty rd rdn ->
+  exists st', parse_rr m starts (length pre) = Some (mk_rr ls ty cl ttl rd rdn, (length pre + length (rec12 ty cl ttl rd))%nat, st') /\
+              In 12%nat st'.
+Proof.
+  intros pre m HH Hok Hw Hin Hty Hcl Httl Hrl Hs.
+  set (fx := rr_fixed ty cl ttl (N.of_nat (length rd))).
+  assert (Hm : m = pre ++ ptr12 ++ fx ++ rd ++ post).
+  { unfold m, rec12, fx. rewrite <- !app_assoc. reflexivity. }
+  assert (Hown : pname m starts (length pre) = Some (ls, (length pre + length ptr12)%nat, [])).
+  { rewrite Hm. unfold pre, ptr12. change ([192; 12] ++ ?x) with ((192 + 0) :: 12 :: x).
+    apply pname_ptr; try assumption; try lia. rewrite HH. exact Hin. }
+  rewrite Hm in *. unfold fx in *.
+  rewrite (parse_rr_split pre ptr12 ty cl ttl rd post starts ls [] Hown Hty Hcl Httl Hrl).
+  fold fx.
+  replace (pre ++ ptr12 ++ fx ++ rd ++ post) with ((pre ++ ptr12 ++ fx) ++ rd ++ post)
+    by (rewrite <- !app_assoc; reflexivity).
+  replace (length pre + length ptr12 + 10)%nat with (length (pre ++ ptr12 ++ fx))
+    by (rewrite !app_length; unfold fx; rewrite rr_fixed_length; lia).
+  destruct (rr_tail_shape ty rd rdn (pre ++ ptr12 ++ fx) post ([] ++ starts) ls cl ttl Hs) as [st Hst].
+  rewrite Hst. eexists. split.
+  - replace (length pre + length (rec12 ty cl ttl rd))%nat with (length (pre ++ ptr12 ++ fx) + length rd)%nat; [reflexivity|].
+    rewrite rec12_length, !app_length. unfold fx. rewrite rr_fixed_length. cbn [length ptr12]. lia.
+  - apply in_or_app. right. exact Hin.
+Qed.
+
+Definition recs12 (ty cl ttl : N) (rds : list (list N)) : list N := concat (map (rec12 ty cl ttl) rds).
+
+Lemma parse_rrs_ptr12 H ls ty cl ttl : forall rds rdns mid starts,
+  let pre := H ++ enc_name ls ++ mid in
+  let m := pre ++ recs12 ty cl ttl rds in
+  length H = 12%nat -> lens_ok ls -> (wire_len ls <= 255)%nat -> In 12%nat starts ->
+  ty < 65536 -> cl < 65536 -> ttl < 4294967296 ->
+  Forall2 (fun rd rdn => N.of_nat (length rd) < 65536 /\ rd_shape ty rd rdn) rds rdns ->
+  exists st', parse_rrs m (length rds) starts (length pre) =
+              Some (map (fun p => mk_rr ls ty cl ttl (fst p) (snd p)) (combine rds rdns), length m, st').
+Proof.
+  induction rds as [|rd rds IH]; intros rdns mid starts pre m HH Hok Hw Hin Hty Hcl Httl HF.
+  - inversion HF; subst. exists starts. unfold m, recs12. cbn [map concat parse_rrs length combine]. rewrite app_nil_r. reflexivity.
+  - inversion HF as [|? rdn ? rdns' [Hrl Hs] HF']; subst.
+    assert (Hm : m = pre ++ rec12 ty cl ttl rd ++ recs12 ty cl ttl rds) by reflexivity.
+    destruct (parse_rr_ptr12 H ls mid ty cl ttl rd rdn (recs12 ty cl ttl rds) starts HH Hok Hw Hin Hty Hcl Httl Hrl Hs) as [st1 [Hrr Hin1]].
+    fold pre in Hrr. rewrite <- Hm in Hrr.
+    cbn [length parse_rrs]. rewrite Hrr.
+    destruct (IH rdns' (mid ++ rec12 ty cl ttl rd) st1 HH Hok Hw Hin1 Hty Hcl Httl HF') as [st2 H2].
+    assert (Hm2 : (H ++ enc_name ls ++ mid ++ rec12 ty cl ttl rd) ++ recs12 ty cl ttl rds = m).
+    { rewrite Hm. unfold pre. rewrite <- !app_assoc. reflexivity. }
+    rewrite Hm2 in H2.
+    replace (length (H ++ enc_name ls ++ mid ++ rec12 ty cl ttl rd)) with (length pre + length (rec12 ty cl ttl rd))%nat in H2
+      by (unfold pre; rewrite !app_length; lia).
+    rewrite H2. exists st2. reflexivity.
+Qed.
+
+(* a complete answer: header (QR|AA), question, n records owned by the question name *)
+Lemma answer_wf id f1 f2 ls ty aty cl ttl rds rdns :
+  let m := hdr12 id f1 f2 1 (N.of_nat (length rds)) 0 0 ++ enc_name ls ++ be16 ty ++ be16 1 ++ recs12 aty cl ttl rds in
+  id < 65536 -> ty < 65536 -> aty < 65536 -> cl < 65536 -> ttl < 4294967296 -> N.of_nat (length rds) < 65536 ->
+  lens_ok ls -> ls <> [] -> (wire_len ls <= 255)%nat ->
+  Forall2 (fun rd rdn => N.of_nat (length rd) < 65536 /\ rd_shape aty rd rdn) rds rdns ->
+  wf_msg m = Some {| m_id := id; m_qr := 128 <=? f1; m_qname := ls; m_qtype := ty; m_qclass := 1;
+                     m_answers := map (fun p => mk_rr ls aty cl ttl (fst p) (snd p)) (combine rds rdns);
+                     m_authority := []; m_additional := [] |}.
+Proof.
+  intros m Hid Hty Haty Hcl Httl Hn Hok Hne Hw HF.
+  assert (Hin : In 12%nat (offsets 12 ls)) by (destruct ls; [congruence|apply offsets_head]).
+  destruct (parse_rrs_ptr12 (hdr12 id f1 f2 1 (N.of_nat (length rds)) 0 0) ls aty cl ttl rds rdns (be16 ty ++ be16 1) (offsets 12 ls)
+              (hdr12_length _ _ _ _ _ _ _) Hok Hw Hin Haty Hcl Httl HF) as [st' Hp].
+  assert (Hm : (hdr12 id f1 f2 1 (N.of_nat (length rds)) 0 0 ++ enc_name ls ++ be16 ty ++ be16 1) ++ recs12 aty cl ttl rds = m)
+    by (unfold m; rewrite <- !app_assoc; reflexivity).
+  rewrite Hm in Hp.
+  replace (length (hdr12 id f1 f2 1 (N.of_nat (length rds)) 0 0 ++ enc_name ls ++ be16 ty ++ be16 1)) with (12 + wire_len ls + 4)%nat in Hp
+    by (rewrite !app_length, hdr12_length, enc_name_length; unfold be16; cbn [length]; lia).
+  apply (wf_msg_intro id f1 f2 (N.of_nat (length rds)) 0 0 ls ty 1 (recs12 aty cl ttl rds) _ [] [] (length m) (length m) st' st' st');
+    try assumption; try lia; try reflexivity.
+  fold m. rewrite Nat2N.id. exact Hp.
+Qed.
